@@ -28,6 +28,9 @@ type tierCfg struct {
 	Shards int
 	Checks int           // rapid.checks per shard
 	Limit  time.Duration // wall-clock limit per shard (inconclusive when hit)
+	// Chunk > 0: a shard's checks are spread over several consecutive processes of at most Chunk
+	// checks (own seed each), so that memory retained by long runs is given back
+	Chunk int
 }
 
 type propCfg struct {
@@ -411,12 +414,28 @@ func check(id, tier string) int {
 
 	// ---- generator shards
 	var wg sync.WaitGroup
-	outs := make([]shardOutcome, tc.Shards)
+	chunks := 1
+	if tc.Chunk > 0 && tc.Checks > tc.Chunk {
+		chunks = (tc.Checks + tc.Chunk - 1) / tc.Chunk
+	}
+	outs := make([]shardOutcome, tc.Shards*chunks)
 	for k := 0; k < tc.Shards; k++ {
 		wg.Add(1)
 		go func(k int) {
 			defer wg.Done()
-			outs[k] = runShard(context.Background(), bin, id, tier, cfg, tc, seed, k, rundir, nil, "TestProp")
+			left := tc.Checks
+			for j := 0; j < chunks; j++ {
+				ctc := tc
+				if chunks > 1 {
+					ctc.Checks = tc.Chunk
+					if left < ctc.Checks {
+						ctc.Checks = left
+					}
+					left -= ctc.Checks
+				}
+				// chunk j of slot k is shard k+j*Shards: its own seed, result file and scratch dir
+				outs[k+j*tc.Shards] = runShard(context.Background(), bin, id, tier, cfg, ctc, seed, k+j*tc.Shards, rundir, nil, "TestProp")
+			}
 		}(k)
 	}
 	wg.Wait()
